@@ -141,14 +141,17 @@ fn coq_ids(v: &Option<Vec<u64>>) -> String {
 
 /// emit one Coq case: the abstract trace, the harness's monitor verdict, and the recovered ids
 /// the implementation's log scanner produced at the sampled crash points
-pub fn emit_case(cx: &mut Ctx, tr: &[(AStep, usize)], seed_ok: bool, points: &[(usize, Mode, Option<Vec<u64>>)]) {
+pub fn emit_case(cx: &mut Ctx, run: &Run, seed_ok: bool, points: &[(usize, Mode, Option<Vec<u64>>)]) {
+    let (tr, rt) = abstract_trace2(run);
+    let tr = &tr;
     let steps: Vec<AStep> = tr.iter().map(|x| x.0.clone()).collect();
     let verdict = monitor(&steps);
     let pts = vh::coq_list(points, |(k, m, ids)| {
         format!("({}%nat, {}, {})", k, if *m == Mode::Pd { "PD" } else { "PL" }, coq_ids(ids))
     });
     cx.cw.push(format!(
-        "{{| c_trace := {}; c_seeded := {}; c_monitor_ok := {}; c_points := {} |}}",
+        "{{| c_rtrace := [{}]; c_trace := {}; c_seeded := {}; c_monitor_ok := {}; c_points := {} |}}",
+        rt.join("; "),
         vh::coq_list(&steps, |s| s.coq()),
         vh::coq_bool(seed_ok),
         vh::coq_bool(verdict.is_none()),
@@ -193,6 +196,34 @@ pub fn explore_crashes(
         if o.starts_with("OPEN FAILED") || o.starts_with("PANIC") {
             cx.st.fails += 1;
             cx.rep.fail(idx, tail_class, &format!("clean reopen after op {} fails: {}", j, o), json!({"history": hist.iter().map(op_json).collect::<Vec<_>>(), "round2_from_torn_tail": tail_class.is_some()}));
+        }
+    }
+    // the reopened clean copy must show what the running process shows at the same boundary
+    // (otherwise recovery replays something else than what was committed, consistently)
+    for j in 0..run.oracle.len().min(run.mem_dumps.len()) {
+        if run.oracle[j] != run.mem_dumps[j] && !run.oracle[j].starts_with("OPEN FAILED") && !run.oracle[j].starts_with("PANIC") {
+            let strip_labels = |d: &str| -> String {
+                d.lines()
+                    .map(|l| match (l.find(" labels=["), l.find("] props=")) {
+                        (Some(a), Some(b)) if l.starts_with("N ") && a < b => format!("{}{}", &l[..a], &l[b + 1..]),
+                        _ => l.to_string(),
+                    })
+                    .collect::<Vec<_>>()
+                    .join("\n")
+            };
+            let class = if strip_labels(&run.oracle[j]) == strip_labels(&run.mem_dumps[j]) {
+                Some("K-C04-labels")
+            } else {
+                tail_class
+            };
+            cx.st.fails += 1;
+            cx.rep.fail(
+                idx,
+                class,
+                &format!("state after reopen differs from the running process's state at the boundary before operation {}", j),
+                json!({"history": hist.iter().map(op_json).collect::<Vec<_>>(), "in_process": run.mem_dumps[j], "reopened": run.oracle[j], "round2": init.is_some()}),
+            );
+            break;
         }
     }
     let tr = abstract_trace(&run);
@@ -240,7 +271,16 @@ pub fn explore_crashes(
                         json!({"input": input(), "recovered": d, "allowed": al}),
                     );
                 } else if kept.len() < keep && r.chance(1, 8) {
-                    kept.push((ndb.clone(), wal.clone(), d));
+                    kept.push((ndb.clone(), wal.clone(), d.clone()));
+                }
+                // follow-up on a sample of images: recover, commit one more transaction, reopen;
+                // the reopened state must be what the recovered process showed
+                if al.iter().any(|o| **o == d) && r.chance(1, 12) {
+                    if let Some(msg) = followup_roundtrip(&ndb, &wal) {
+                        cx.st.fails += 1;
+                        cx.rep.fail(idx, tail_class.filter(|_| false), &msg.0, json!({"input": input(), "detail": msg.1}));
+                    }
+                    cx.st.bump("followup_roundtrip");
                 }
             }
         }
@@ -251,13 +291,44 @@ pub fn explore_crashes(
         }
     }
     if !seeded {
-        emit_case(cx, &tr, false, &corr_points);
+        emit_case(cx, &run, false, &corr_points);
     }
     if idx < 2 && !seeded {
         cx.rep.case(idx, json!({"history": hist.iter().map(op_json).collect::<Vec<_>>(), "io_events": run.events.len(),
             "abstract_trace": steps.iter().map(|s| s.coq()).collect::<Vec<_>>(), "crash_points": pts.len()}));
     }
     kept
+}
+
+/// open the image, commit one more transaction (a node with a property and an edge to node 0 if
+/// there is one), remember the in-process dump, drop, reopen: both dumps must agree
+pub fn followup_roundtrip(ndb: &[u8], wal: &[u8]) -> Option<(String, serde_json::Value)> {
+    let d = tempfile::tempdir().unwrap();
+    let p = Paths::in_dir(d.path());
+    std::fs::write(&p.ndb, ndb).unwrap();
+    std::fs::write(&p.wal, wal).unwrap();
+    let e = open_engine(&p).ok()?;
+    let n = e.scan_i2e_records().len() as u32;
+    let mut ws = vec![W::Node { ext: 888_888, label: "A".into() }, W::SetNP { n, k: "fk".into(), v: 3 }];
+    if n > 0 {
+        ws.push(W::Edge { s: n, r: "R".into(), d: 0 });
+    }
+    if let Err(x) = apply_tx(&e, &ws) {
+        return Some((format!("a transaction after crash recovery is refused: {}", x), json!({})));
+    }
+    let mem = dump(&e);
+    drop(e);
+    match open_engine(&p) {
+        Err(x) => Some((format!("database does not open after recovery + one more commit: {}", x), json!({"in_process": mem}))),
+        Ok(e2) => {
+            let re = dump(&e2);
+            if re != mem {
+                Some(("after crash recovery and one more commit, the reopened state differs from the running process's state".into(), json!({"in_process": mem, "reopened": re})))
+            } else {
+                None
+            }
+        }
+    }
 }
 
 /// known classes of protocol violations (none recorded at present)
@@ -344,9 +415,9 @@ pub fn explore_faults(cx: &mut Ctx, r: &mut Rng, idx: usize, hist: &[Op], from_o
         // the follow-up transaction ran outside the recording, so the final image has more
         // transactions than the trace: only traces without follow-up commits are compared
         if !follow_ok {
-            emit_case(cx, &tr, false, &pts);
+            emit_case(cx, &frun, false, &pts);
         } else {
-            emit_case(cx, &tr, false, &[]);
+            emit_case(cx, &frun, false, &[]);
         }
         // (3) after reopen: all or nothing, and the follow-up transaction is durable
         check_after_fault(cx, idx, &clean, i, d2.path(), !follow_ok, class, &input);
